@@ -18,6 +18,29 @@ def sh(cmd, cwd=None, env=None, timeout=3000):
     return subprocess.CompletedProcess(cmd, 124, '', 'timeout')
 
 
+F18_LINES = '''    # The numerical routines downstream work on plain numpy numbers, not on
+    # pandas' nullable extension types (Int64, Float64).
+    if any(isinstance(dtype, pd.api.extensions.ExtensionDtype)
+           for dtype in df.dtypes):
+      df = df.astype(float)
+'''
+
+
+def resolve_f18(wt):
+  """The repair F18 added five lines right after the pivot in TBRMMData.__init__; a change that rewrites the pivot conflicts
+  with them textually only. Resolution: the change's version of the pivot, followed by the F18 lines."""
+  import re
+  p = os.path.join(wt, 'matched_markets/methodology/tbrmmdata.py')
+  src = open(p).read()
+  blocks = re.findall(r'<<<<<<< ours\n(.*?)=======\n(.*?)>>>>>>> theirs\n', src, re.S)
+  if len(blocks) != 1 or 'ExtensionDtype' not in blocks[0][0] or sh('git diff --name-only --diff-filter=U', cwd=wt).stdout.split() != ['matched_markets/methodology/tbrmmdata.py']:
+    return False
+  src = re.sub(r'<<<<<<< ours\n(.*?)=======\n(.*?)>>>>>>> theirs\n', lambda m: m.group(2) + F18_LINES, src, flags=re.S)
+  open(p, 'w').write(src)
+  sh('git reset -q', cwd=wt)
+  return True
+
+
 def one(sid):
   d = os.path.join(HERE, 'seeded', sid)
   wt = '/var/tmp/sr-%s' % sid
@@ -30,7 +53,9 @@ def one(sid):
       a = sh('git apply --3way %s/patch.diff' % d, cwd=wt)
       how = '3-way'
       if a.returncode != 0 or 'conflict' in (a.stdout + a.stderr).lower():
-        return sid, 'patch-conflict', '', 0.0
+        if not resolve_f18(wt):
+          return sid, 'patch-conflict', '', 0.0
+        how = '3-way, resolved around the F18 lines'
     env = dict(os.environ, PYTHONPATH=wt)
     dm = sh('/venv/bin/python -W ignore %s/demo.py' % d, cwd=wt, env=env, timeout=900)
     if dm.returncode == 0:
